@@ -65,6 +65,10 @@ pub struct ReplayFile<S> {
     pub decisions: Vec<Decision>,
     pub log_hash: u64,
     pub shape: String,
+    /// written by the SIGABRT handler: the scenario aborted the process; replay re-runs it under
+    /// its own schedule seed instead of a decision list
+    #[serde(default)]
+    pub abort: bool,
 }
 
 #[derive(Serialize, Deserialize, Clone, Debug)]
@@ -214,6 +218,12 @@ fn profile_hash(p: &str) -> u64 {
 
 /// Runs corpus, grid and seeded batch. Stops at the first violation that is not a known finding.
 pub fn run_batch<H: Harness>(h: &H, cfg: &BatchCfg) -> BatchResult<H::Sc> {
+    crate::abortguard::set_context(crate::abortguard::Ctx {
+        harness: h.name().to_string(),
+        property: cfg.profile.clone(),
+        seed: cfg.seed,
+        dir: crate::cli::verif_dir().join("replays"),
+    });
     let start = Instant::now();
     let stop = AtomicBool::new(false);
     let next = AtomicU64::new(0);
@@ -311,7 +321,10 @@ pub fn run_batch<H: Harness>(h: &H, cfg: &BatchCfg) -> BatchResult<H::Sc> {
                         let mut rng = Rng::new(run_seed);
                         h.generate(&mut rng, &cfg.profile, cfg.thorough)
                     };
-                    let o = h.run(&sc, None, false);
+                    let o = {
+                        let _g = crate::abortguard::running(&sc);
+                        h.run(&sc, None, false)
+                    };
                     agg.absorb(&o);
                     if agg.samples.len() < 2 && o.nontrivial && i >= n_pre {
                         agg.samples.push(json!({
@@ -377,7 +390,10 @@ pub fn shrink<H: Harness>(h: &H, sc: &H::Sc, v: &Violation) -> (H::Sc, Violation
                 if k > 0 {
                     h.set_sched_seed(&mut c, mix(&[0x5eed, k]));
                 }
-                let o = h.run(&c, None, false);
+                let o = {
+                    let _g = crate::abortguard::running(&c);
+                    h.run(&c, None, false)
+                };
                 if let Some(cv) = o.violation {
                     if cv.signature() == sig {
                         hit = Some((c, cv));
@@ -426,6 +442,7 @@ pub fn write_replay<H: Harness>(
         scenario: f.sc.clone(),
         decisions: o.decisions.clone(),
         log_hash: o.log_hash,
+        abort: false,
     };
     std::fs::create_dir_all(dir).map_err(|e| e.to_string())?;
     let path = dir.join(format!("{}-{}-{}.json", v.property, v.clause, seed));
@@ -440,6 +457,16 @@ pub enum ReplayVerdict {
 }
 
 pub fn replay_file<H: Harness>(h: &H, rf: &ReplayFile<H::Sc>, trace: bool) -> ReplayVerdict {
+    let _g = crate::abortguard::running(&rf.scenario);
+    if rf.abort {
+        // expected to abort again (the SIGABRT handler then reports it); if it does not, any
+        // violation it shows is reported, otherwise the tree no longer has the problem
+        let o = h.run(&rf.scenario, None, trace);
+        return match o.violation {
+            Some(v) => ReplayVerdict::Reproduced(v, o.trace),
+            None => ReplayVerdict::NoViolation(o.trace),
+        };
+    }
     let o = h.run(&rf.scenario, Some(rf.decisions.clone()), trace);
     if let Some(e) = o.diverged {
         return ReplayVerdict::Nondeterministic(format!("decision list does not fit: {e}"));
